@@ -23,6 +23,8 @@ mod task;
 mod terminal;
 mod trace;
 mod work;
+#[cfg(feature = "verif")]
+pub mod verif;
 
 #[cfg(feature = "jemalloc")]
 #[cfg(not(any(miri, windows, target_arch = "wasm32")))]
